@@ -1,5 +1,6 @@
 From Coq Require Import List NArith ZArith String.
 From NV Require Import Lib.Val Lib.Res Lib.Wire Prep.Model.
+From NV Require Prep.Detect.
 Import ListNotations.
 Open Scope string_scope.
 
@@ -22,4 +23,14 @@ Definition dispatch (cmd : string) (a : val) : val :=
     VS (board_conf (getN (arg 0 a)) (getS (arg 1 a)) (getN (arg 2 a)))
   else if String.eqb cmd "read_board" then VOpt VBoard (read_board (getS a))
   else if String.eqb cmd "path_ok" then VB (path_ok (getS a))
+  else if String.eqb cmd "detect" then
+    (* [() | (boot); () | (root); [(number, kind) ...]] kind 0 fat 1 maybefat 2 notfat -> (boot, root) | 0 no boot | 1 no root *)
+    let opt v := match getL v with [x] => Some (getN x) | _ => None end in
+    let kind n := if N.eqb n 0 then Prep.Detect.KFat else if N.eqb n 1 then Prep.Detect.KMaybe else Prep.Detect.KNot in
+    match Prep.Detect.detect (opt (arg 0 a)) (opt (arg 1 a))
+            (map (fun e => (getN (arg 0 e), kind (getN (arg 1 e)))) (getL (arg 2 a))) with
+    | Prep.Detect.Detected b r => VL [VN b; VN r]
+    | Prep.Detect.NoBoot => VN 0
+    | Prep.Detect.NoRoot => VN 1
+    end
   else VErr "unknown command".
